@@ -47,7 +47,7 @@ ASSUMPTIONS = ['the global reader registry is restored from its import-time '
                'snapshot at the top of every case (R6)',
                'sample files of the repository stand for their formats; '
                'generated content varies only for netCDF']
-BUDGET = {'quick': dict(examples=1600, max_s=300),
+BUDGET = {'quick': dict(examples=1200, max_s=300),
           'thorough': dict(examples=40000, max_s=3000)}
 
 SAMPLES = ['uamiv', 'lateral_boundary', 'humidity', 'vertical_diffusivity',
